@@ -346,9 +346,10 @@ class Ex:
                 raise Unknown('shell command')
             if self.dirty:
                 raise Reject('filters are refused while the buffer is modified')
-            a, b = self.region(loc)
             if not n:
-                raise Reject('empty')
+                # neatvi runs the command on no lines and takes its output (like 0r !cmd); whether that is a rejection is not for this model to say
+                raise Unknown('filter on an empty buffer')
+            a, b = self.region(loc)
             new = self.shell[arg]([l.text for l in self.lines[a - 1:b]])
             if new is None:         # command failed / produced nothing: neatvi still replaces with its (empty) output
                 new = []
